@@ -20,6 +20,7 @@ use crate::{
 	function::{CallLocation, FuncDesc, FuncVal},
 	gc::WithCapacityExt as _,
 	in_frame,
+	stack::check_depth,
 	typed::{FromUntyped, IntoUntyped as _, Typed},
 	val::{CachedUnbound, IndexableVal, NumValue, StrValue, Thunk},
 	with_state, Context, Error, ObjValue, ObjValueBuilder, ObjectAssertion, Pending, Result,
@@ -473,6 +474,9 @@ pub fn evaluate(ctx: Context, expr: &Expr) -> Result<Val> {
 			|| ctx.binding((**name).clone())?.evaluate(),
 		)?,
 		Index { indexable, parts } => ensure_sufficient_stack(|| {
+			// Fields and array elements are evaluated on demand right here, which recurses
+			// without passing through a call frame; count it against the stack limit too.
+			let _guard = check_depth()?;
 			let mut parts = parts.iter();
 			let mut indexable = if matches!(&**indexable, Expr::Literal(LiteralType::Super)) {
 				let part = parts.next().expect("at least part should exist");
